@@ -8,7 +8,7 @@ import random
 import subprocess
 import tempfile
 
-from .. import biggen, canon, driver, lang, pool
+from .. import biggen, canon, driver, gen, lang, pool
 from . import C01, C02, C05
 
 PROPERTY = "C19"
@@ -80,6 +80,26 @@ def gen_cases(tier, seed):
                       "other": biggen.mixed_program(random.Random(6), "small", prefix="zz"), "pseed": sub.randrange(1 << 30),
                       "optimize": sub.random() < 0.8, "poles": None, "nproc": 4 if tier == "quick" else 6,
                       "seed": sub.randrange(1 << 30)})
+    for _ in range(6 if tier == "quick" else 40):
+        # one signal name from two producers, the first feeding the second, both with fan-out: the consumer's
+        # network selection must not depend on which hops the (layout-dependent) spanning trees happen to contain
+        sub = random.Random(rng.randrange(1 << 60))
+        types = gen.Types(sub, ("far",))
+        if sub.random() < 0.5:
+            prog = C01.s_sel_same_typed(sub, 1)["prog"]
+        else:
+            # both producers computed: x = src * 2; dbl = x + 1; c = (x > dbl) : dbl  (all on src's type)
+            prog = [["input", "src", types.fresh(), sub.randint(1, 9)],
+                    ["sig", "x", ["b", "*", ["v", "src"], ["n", sub.randint(2, 4)]]],
+                    ["sig", "dbl", ["b", "+", ["v", "x"], ["n", sub.randint(1, 5)]]]]
+            for j in range(sub.randint(1, 3)):
+                prog.append(["sig", "c%d" % j, ["p", ["s", ["c", sub.choice(lang.CMP_OPS), ["v", "x"], ["v", "dbl"]], ["v", "dbl"]], types.fresh()]])
+        for j in range(sub.randint(1, 3)):
+            prog.append(["sig", "fx%d" % j, ["p", ["b", "+", ["v", "x"], ["n", j + 1]], types.fresh()]])
+            prog.append(["sig", "fd%d" % j, ["p", ["b", "*", ["v", "dbl"], ["n", j + 2]], types.fresh()]])
+        cases.append({"id": len(cases), "stratum": "same_name_two_producers_fanout", "prog": prog,
+                      "other": biggen.mixed_program(random.Random(7), "small", prefix="zz"), "pseed": sub.randrange(1 << 30),
+                      "optimize": True, "poles": None, "nproc": 4 if tier == "quick" else 6, "seed": sub.randrange(1 << 30)})
     for i in range(n):
         sub = random.Random(rng.randrange(1 << 60))
         r = sub.random()
